@@ -272,7 +272,8 @@ func (c *ExprCase) stmt(x string, lit bool, v int64) string {
 	case "resb":
 		return "\tRESB " + x + "\n\tDB 0x77\n"
 	case "equ":
-		return "qq\tEQU\t" + x + "\n\tDD qq\n"
+		// three bytes lie between the definition and the use: $ is the address of the definition
+		return "qq\tEQU\t" + x + "\n\tRESB 3\n\tDD qq\n"
 	}
 	return ""
 }
@@ -356,9 +357,18 @@ func checkC06(c ExprCase) Verdict {
 			v.Sig = sig("short")
 			return v
 		}
+		at := skip
+		if c.Pos == "equ" {
+			at += 3
+		}
+		if len(r.Out) < at+w {
+			v.Fail = fmt.Sprintf("%q emitted %d bytes\n%s", text, len(r.Out)-skip, src)
+			v.Sig = sig("short")
+			return v
+		}
 		var got int64
 		for i := w - 1; i >= 0; i-- {
-			got = got<<8 | int64(r.Out[skip+i])
+			got = got<<8 | int64(r.Out[at+i])
 		}
 		mask := int64(1)<<(8*uint(w)) - 1
 		if got != iv&mask {
@@ -397,7 +407,7 @@ func checkC06(c ExprCase) Verdict {
 
 var propC06 = &Prop[ExprCase]{
 	ID:   "C06",
-	Rule: "expression trees up to depth 4 over boundary and uniform literals (decimal, negative decimal, hex), + - * / %, needed and redundant parentheses, EQU names standing for sub-expressions, $, random spacing around operators; in every operand position (DD, DW, DB, 32- and 16-bit immediates, displacement, RESB, EQU body), one case in five behind an out-of-reach Jcc that forces a second assembly round; oracle (a) arbitrary-precision reference evaluator with usual precedence, left associativity, truncating division; (b) metamorphic: expression vs its literal value assemble identically; non-trivial = operators of both precedence classes, or parentheses, or a negative operand of / or %; distinct by (position, mode, origin, rendered expression)",
+	Rule: "expression trees up to depth 4 over boundary and uniform literals (decimal, negative decimal, hex), + - * / %, needed and redundant parentheses, EQU names standing for sub-expressions, $, random spacing around operators; in every operand position (DD, DW, DB, 32- and 16-bit immediates, displacement, RESB, EQU body - there $ is the address of the definition, the use follows three bytes later), one case in five behind an out-of-reach Jcc that forces a second assembly round; oracle (a) arbitrary-precision reference evaluator with usual precedence, left associativity, truncating division; (b) metamorphic: expression vs its literal value assemble identically; non-trivial = operators of both precedence classes, or parentheses, or a negative operand of / or %; distinct by (position, mode, origin, rendered expression)",
 	Gen: func(t *rapid.T) ExprCase {
 		c := ExprCase{
 			Mode: rapid.SampledFrom([]int{0, 32}).Draw(t, "mode"),
@@ -406,7 +416,7 @@ var propC06 = &Prop[ExprCase]{
 		}
 		var equs []*ENode
 		used := map[string]bool{"qq": true}
-		c.E = genENode(t, rapid.IntRange(1, 4).Draw(t, "depth"), c.Pos != "equ", &equs, used)
+		c.E = genENode(t, rapid.IntRange(1, 4).Draw(t, "depth"), true, &equs, used)
 		if rapid.IntRange(0, 4).Draw(t, "ctx") == 0 {
 			c.Ctx = "widen"
 		}
